@@ -47,8 +47,8 @@ static inline void TcpEngine_cancelWriteStallTimeout(TcpEngine *self, Session *s
 /* ---- loop 1 of writePending: the drain loop ---- */
 #define IORA_LOOP_TcpEngine_writePending_1 IORA_LC( \
   __CPROVER_assigns(s->wq, s->wantWrite, s->tlsWantWrite, s->lastWriteProgress, s->closed, self->_sessions.has, self->_atomicStats.bytesOut, \
-                    G_written, G_errno, G_send_calls, G_sslw_calls, G_ssl_last_ret, G_close_calls, G_close_sid, G_close_why, \
-                    G_ep_fd, G_ep_events, G_ep_op, G_ep_epfd, G_ep_mods, G_ep_dels) \
+                    IORA_WRITE_ENV_GHOSTS, G_close_calls, G_close_sid, G_close_why, \
+                    IORA_EPOLL_GHOSTS) \
   __CPROVER_loop_invariant(!s->closed && self->_sessions.has && G_close_calls == __CPROVER_loop_entry(G_close_calls)) \
   __CPROVER_loop_invariant(STREAM(s, G_A) && G_written >= __CPROVER_loop_entry(G_written)) \
   __CPROVER_loop_invariant(self->_atomicStats.bytesOut - __CPROVER_loop_entry(self->_atomicStats.bytesOut) == G_written - __CPROVER_loop_entry(G_written)) \
